@@ -13,6 +13,10 @@
 //	setstat <mode> <sec> <nsec>         SetStat
 //	remode                              SetSizeEstimationMode(Links); SetSizeEstimationMode(Block)  (forces a recompute)
 //	stat                                -> est=<estimatedSize> n=<totalLinks> raw=<len(GetNode().RawData())>
+//	dynnew <threshold> <mode> <sec> <nsec> | dynadd <name> <cid> <tsize> | dynrm <name>
+//	                                    a DynamicDirectory (block mode, per-directory HAMTShardingSize); these ops
+//	                                    always answer "ok" (not modelled), a monitor checks that while the directory
+//	                                    is still basic after an AddChild its block fits the threshold
 //
 // every directory op answers "<ok|notfound|err> est=.. n=.. raw=..".
 package main
@@ -28,6 +32,7 @@ import (
 	"time"
 
 	"github.com/ipfs/boxo/ipld/merkledag"
+	mdtest "github.com/ipfs/boxo/ipld/merkledag/test"
 	"github.com/ipfs/boxo/ipld/unixfs"
 	uio "github.com/ipfs/boxo/ipld/unixfs/io"
 	cid "github.com/ipfs/go-cid"
@@ -91,6 +96,33 @@ func nameTok(r *vh.Rand) string {
 	}
 }
 
+func vlen(v uint64) int {
+	n := 1
+	for ; v >= 128; v >>= 7 {
+		n++
+	}
+	return n
+}
+
+// boundaryName picks a name length such that the PBLink message (Hash + Name + Tsize fields) lands on or
+// next to a length-varint boundary (127/128, rarely 16383/16384) — densely on both sides, and in
+// particular inside the window where the message WITHOUT its Tsize field is still below the boundary
+// and WITH it is not. The length is derived from the CID length and the Tsize varint class.
+func boundaryName(r *vh.Rand, cidLen int, tsize uint64, allowBig bool) string {
+	tsz := 1 + vlen(tsize)
+	h := 1 + vlen(uint64(cidLen)) + cidLen
+	b, nameOverhead := 128, 2
+	if allowBig && r.Chance(1, 12) {
+		b, nameOverhead = 16384, 3
+	}
+	target := b - tsz + r.Range(-2, tsz+1) // Hash+Name bytes: from 2 below the window to 1 above it
+	n := target - h - nameOverhead
+	if n < 0 {
+		n = 0
+	}
+	return vh.Hex([]byte(strings.Repeat(string(rune('a'+r.Intn(26))), n)))
+}
+
 func timeTok(r *vh.Rand) string {
 	if r.Chance(1, 4) {
 		return "zero -"
@@ -139,6 +171,24 @@ func gen(r *vh.Rand, tier string, n int, emit func(vh.Case)) {
 	}
 	c.Ops = append(c.Ops, "vlen 18446744073709551615")
 	emit(c)
+	// linkSerializedSize swept across the 127/128 boundary of the PBLink length: every pool CID, one Tsize
+	// per varint class, every name length from 3 below the "without Tsize" window to 1 above the boundary
+	for ci, cc := range cids {
+		c := vh.Case{ID: "lsweep" + strconv.Itoa(ci)}
+		cl := len(cc.Bytes())
+		h := 1 + vlen(uint64(cl)) + cl
+		for _, ts := range []uint64{0, 300, 1 << 21, 1 << 28, 1 << 35, 1 << 42, 1 << 49, 1 << 56, 1<<63 - 1} {
+			tsz := 1 + vlen(ts)
+			for hn := 128 - tsz - 3; hn <= 129; hn++ {
+				if n := hn - h - 2; n >= 0 {
+					c.Ops = append(c.Ops, fmt.Sprintf("lsize %s %s %d", vh.Hex([]byte(strings.Repeat("s", n))), vh.Hex(cc.Bytes()), ts))
+				}
+			}
+		}
+		if len(c.Ops) > 0 {
+			emit(c)
+		}
+	}
 	for i := 0; i < n; i++ {
 		c := vh.Case{ID: strconv.Itoa(i)}
 		if r.Chance(1, 8) {
@@ -147,9 +197,33 @@ func gen(r *vh.Rand, tier string, n int, emit func(vh.Case)) {
 				case 0:
 					c.Ops = append(c.Ops, "vlen "+strconv.FormatUint(r.U64()>>uint(r.Intn(64)), 10))
 				case 1:
-					c.Ops = append(c.Ops, fmt.Sprintf("lsize %s %s %d", nameTok(r), vh.Hex(vh.Pick(r, cids).Bytes()), vh.Pick(r, tsizes)))
+					cc, ts := vh.Pick(r, cids), vh.Pick(r, tsizes)
+					nm := nameTok(r)
+					if r.Chance(2, 3) {
+						nm = boundaryName(r, len(cc.Bytes()), ts, true)
+					}
+					c.Ops = append(c.Ops, fmt.Sprintf("lsize %s %s %d", nm, vh.Hex(cc.Bytes()), ts))
 				default:
 					c.Ops = append(c.Ops, fmt.Sprintf("dsize %s %s", modeTok(r), timeTok(r)))
+				}
+			}
+			emit(c)
+			continue
+		}
+		if r.Chance(1, 6) {
+			// DynamicDirectory in block mode with a small per-directory threshold (monitor only: while the
+			// directory is still a single block after an AddChild, that block must fit the threshold)
+			c.Ops = append(c.Ops, fmt.Sprintf("dynnew %d %s %s", r.Range(120, 700), modeTok(r), timeTok(r)))
+			for j, m := 0, 10+r.Intn(40); j < m; j++ {
+				nm := vh.Hex([]byte("e" + strconv.Itoa(r.Intn(8))))
+				cc, ts := vh.Pick(r, cids), vh.Pick(r, tsizes)
+				if r.Chance(1, 6) {
+					nm = boundaryName(r, len(cc.Bytes()), ts, false)
+				}
+				if r.Chance(1, 6) {
+					c.Ops = append(c.Ops, "dynrm "+nm)
+				} else {
+					c.Ops = append(c.Ops, fmt.Sprintf("dynadd %s %s %d", nm, vh.Hex(cc.Bytes()), ts))
 				}
 			}
 			emit(c)
@@ -175,7 +249,11 @@ func gen(r *vh.Rand, tier string, n int, emit func(vh.Case)) {
 				if r.Chance(1, 5) {
 					ts = uint64(r.Intn(1 << 20))
 				}
-				c.Ops = append(c.Ops, fmt.Sprintf("add %s %s %d", nm, vh.Hex(vh.Pick(r, cids).Bytes()), ts))
+				cc := vh.Pick(r, cids)
+				if r.Chance(1, 3) {
+					nm = boundaryName(r, len(cc.Bytes()), ts, true)
+				}
+				c.Ops = append(c.Ops, fmt.Sprintf("add %s %s %d", nm, vh.Hex(cc.Bytes()), ts))
 				used = append(used, nm)
 			case 7, 8, 9:
 				if len(used) > 0 && !r.Chance(1, 6) {
@@ -230,6 +308,8 @@ func parseCid(h string) cid.Cid {
 }
 
 type st struct {
+	dyn       uio.Directory // DynamicDirectory under the monitor-only dyn* ops (nil once sharded)
+	dynThr    int
 	d         *uio.BasicDirectory
 	reloaded  bool   // the directory object was rebuilt from its node at least once
 	statDrift bool   // SetStat was called on this directory object (its stored mode/mtime differ from the node's)
@@ -367,6 +447,42 @@ func exec(c vh.Case, o *vh.Out) {
 			s.answer(o, "ok")
 		case "stat":
 			s.answer(o, "ok")
+		case "dynnew":
+			md, t := os.FileMode(uint32(u64(f[2]))), parseTime(f[3], f[4])
+			d, err := uio.NewDirectory(mdtest.Mock(), uio.WithSizeEstimationMode(uio.SizeEstimationBlock), uio.WithStat(md, t))
+			if err != nil {
+				panic(err)
+			}
+			s.dynThr = vh.Atoi(f[1])
+			d.SetHAMTShardingSize(s.dynThr)
+			s.dyn = d
+			o.Kind("dyn")
+			o.Emit("ok")
+		case "dynadd", "dynrm":
+			if s.dyn != nil {
+				nm := string(vh.UnHex(f[1]))
+				if f[0] == "dynrm" {
+					_ = s.dyn.RemoveChild(ctx, nm)
+				} else if err := s.dyn.AddChild(ctx, nm, &stub{parseCid(f[2]), u64(f[3])}); err != nil {
+					o.Fail("dyn-add-rejected", "DynamicDirectory.AddChild failed: %v", err)
+				}
+				nd, err := s.dyn.GetNode()
+				if err != nil {
+					s.dyn = nil // sharded and not serializable with stub children: stop following it
+				} else if fsn, err := unixfs.FSNodeFromBytes(nd.(*merkledag.ProtoNode).Data()); err != nil || fsn.Type() != unixfs.TDirectory {
+					o.Kind("dyn-sharded")
+					s.dyn = nil
+				} else if got := len(nd.RawData()); f[0] == "dynadd" && got > s.dynThr {
+					// the decision must have been taken on the exact size of this block
+					o.Fail("basic-block-over-threshold", "after AddChild the directory is still one block of %d bytes, sharding threshold %d", got, s.dynThr)
+				} else {
+					s.edits++
+					if s.edits >= 3 && len(nd.Links()) >= 2 {
+						o.Nontrivial()
+					}
+				}
+			}
+			o.Emit("ok")
 		default:
 			o.Emit("bad-op")
 		}
